@@ -199,7 +199,13 @@ def r3(F, R):
     R.check(okl, "finished-flag-first", fin, "finished && (…)", "IS_FINISHED can be true before the parser finished")
     from .c04 import check_finished_requires_flag
     check_finished_requires_flag(F, R, "tripped-still-waits-for-parser")
-    # the loop is left only when nothing is in flight
+    check_exit_requires_empty_in_flight(F, R, "exit-only-when-nothing-in-flight")
+    R.floor(5)
+
+
+def check_exit_requires_empty_in_flight(F, R, inst):
+    """The scheduling loop is left (run-Finished emitted, in-flight futures dropped) only when the in-flight set is empty."""
+    ex = roles.execute(F)
     fin_ev = [(s, st) for s, st in ex.assigns(lambda st: st["rv"]["k"] == "agg" and st["rv"].get("adt") == "event::Cucumber" and st["rv"]["variant"] == "Finished")]
     ok_e = False
     if len(fin_ev) == 1:
@@ -207,9 +213,9 @@ def r3(F, R):
             d = g.cond_def()
             if d and d[0] == "call" and callee_is(d[2], r"FuturesUnordered::<.*>::is_empty$") and g.polarity() is True:
                 ok_e = True
-    R.check(ok_e, "exit-only-when-nothing-in-flight", fin_ev[0][0] if fin_ev else ex, "run-Finished ⇐ in-flight set empty",
-            "the loop can be left (run-Finished emitted) while attempts are still in flight")
-    R.floor(5)
+    R.check(ok_e, inst, fin_ev[0][0] if fin_ev else ex, "run-Finished ⇐ in-flight set empty",
+            "the loop can be left (run-Finished emitted) while attempts are still in flight: their futures are dropped, so a started attempt "
+            "never gets its step result, after hook and Finished event")
 
 
 def r4(F, R):
